@@ -561,7 +561,13 @@ func inTrimSpace(c *Ctx, st *State, fn *ssa.Function, args []Value) (*State, Val
 // ---------------------------------------------------------------- errors / fmt
 
 func (c *Ctx) newErr(tag string, wraps ...Value) *Iface {
-	return &Iface{t: errType, v: &ErrObj{id: c.newID(), tag: tag, wraps: wraps}}
+	plain := !c.inInit && !strings.HasPrefix(tag, "sentinel:")
+	for _, w := range wraps {
+		if !c.isPlainErrValue(w) {
+			plain = false
+		}
+	}
+	return &Iface{t: errType, v: &ErrObj{id: c.newID(), tag: tag, wraps: wraps, plain: plain}}
 }
 
 func inErrorsNew(c *Ctx, st *State, fn *ssa.Function, args []Value) (*State, Value) {
